@@ -50,6 +50,26 @@ type IfaceV struct {
 	DynT   types.Type
 	Opaque string
 	T      types.Type
+	// AltC != nil: the value depends on the path (AltC ? AltA : AltB) and the two
+	// have different dynamic types / identities; no other field is used then
+	AltC       *Term
+	AltA, AltB *IfaceV
+}
+
+type ifaceLeaf struct {
+	g *Term
+	v *IfaceV
+}
+
+func (x *Exec) ifaceLeaves(v *IfaceV, g *Term, out []ifaceLeaf) []ifaceLeaf {
+	if g.Op == "false" {
+		return out
+	}
+	if v.AltC != nil {
+		out = x.ifaceLeaves(v.AltA, x.b.And(g, v.AltC), out)
+		return x.ifaceLeaves(v.AltB, x.b.And(g, x.b.Not(v.AltC)), out)
+	}
+	return append(out, ifaceLeaf{g, v})
 }
 
 type SliceV struct {
@@ -69,6 +89,67 @@ type MapV struct {
 type FuncV struct {
 	Fn       *ssa.Function
 	Bindings []Value
+}
+
+// FuncIteV: a function value that depends on the path (C ? A : B); A and B are
+// *FuncV (Fn == nil: the nil function), *FuncIteV, or *OpaqueV (an unknown
+// function, e.g. the entry value of a func-typed field).
+type FuncIteV struct {
+	C    *Term
+	A, B Value
+}
+
+func isFuncKind(v Value) bool {
+	switch u := v.(type) {
+	case *FuncV, *FuncIteV:
+		return true
+	case *OpaqueV:
+		if u.T != nil {
+			_, ok := u.T.Underlying().(*types.Signature)
+			return ok
+		}
+	}
+	return false
+}
+
+// funcNil: is the function value nil?  An unknown function has an unknown
+// (but fixed) answer.
+func (x *Exec) funcNil(v Value) *Term {
+	b := x.b
+	switch u := v.(type) {
+	case *FuncV:
+		return b.Bool(u.Fn == nil)
+	case *FuncIteV:
+		return b.Ite(u.C, x.funcNil(u.A), x.funcNil(u.B))
+	case *OpaqueV:
+		if x.opaqueNil == nil {
+			x.opaqueNil = map[*OpaqueV]*Term{}
+		}
+		if t, ok := x.opaqueNil[u]; ok {
+			return t
+		}
+		t := b.Fresh("funcnil_"+sanitize(u.Name), BoolS())
+		x.opaqueNil[u] = t
+		return t
+	}
+	unsupported("nil test of %T", v)
+	return nil
+}
+
+type funcLeaf struct {
+	g *Term
+	v Value
+}
+
+func (x *Exec) funcLeaves(v Value, g *Term, out []funcLeaf) []funcLeaf {
+	if g.Op == "false" {
+		return out
+	}
+	if u, ok := v.(*FuncIteV); ok {
+		out = x.funcLeaves(u.A, x.b.And(g, u.C), out)
+		return x.funcLeaves(u.B, x.b.And(g, x.b.Not(u.C)), out)
+	}
+	return append(out, funcLeaf{g, v})
 }
 
 // StrV: a string; Known strings carry their Go value.
@@ -308,6 +389,20 @@ func (x *Exec) iteV(c *Term, a, bb Value) Value {
 	if a == bb {
 		return a
 	}
+	if a != nil && bb != nil && isFuncKind(a) && isFuncKind(bb) {
+		if p, ok := a.(*FuncV); ok {
+			if q, ok := bb.(*FuncV); ok && p.Fn == q.Fn && len(p.Bindings) == 0 && len(q.Bindings) == 0 {
+				return p
+			}
+		}
+		if c.Op == "true" {
+			return a
+		}
+		if c.Op == "false" {
+			return bb
+		}
+		return &FuncIteV{C: c, A: a, B: bb}
+	}
 	if a != nil && bb != nil && reflect.TypeOf(a) != reflect.TypeOf(bb) {
 		unsupported("merge of values of different kinds (%T, %T): e.g. a non-constant function value", a, bb)
 	}
@@ -353,6 +448,9 @@ func (x *Exec) iteV(c *Term, a, bb Value) Value {
 		return &PtrV{Obj: p.Obj, Path: p.Path, Nil: b.Ite(c, pn, qn)}
 	case *IfaceV:
 		q := bb.(*IfaceV)
+		if p.AltC != nil || q.AltC != nil {
+			return &IfaceV{AltC: c, AltA: p, AltB: q, T: p.T}
+		}
 		pn, qn := x.ifaceNil(p), x.ifaceNil(q)
 		switch {
 		case p.Dyn == nil && p.Opaque == "" && q.Dyn == nil && q.Opaque == "":
@@ -369,7 +467,9 @@ func (x *Exec) iteV(c *Term, a, bb Value) Value {
 			// two opaque values of different identity (error values …)
 			return &IfaceV{Nil: b.Ite(c, pn, qn), Opaque: "#merged", IdT: b.Ite(c, x.ifaceId(p), x.ifaceId(q)), T: p.T}
 		}
-		unsupported("merge of different interface values")
+		// different dynamic types (an opaque user value and a concrete one, two
+		// concrete types): kept apart, every use splits on the condition
+		return &IfaceV{AltC: c, AltA: p, AltB: q, T: p.T}
 	case *SliceV:
 		q := bb.(*SliceV)
 		if p.Obj != q.Obj || !samePath(p.Path, q.Path) {
@@ -471,6 +571,9 @@ func (x *Exec) ptrNil(p *PtrV) *Term {
 	return p.Nil
 }
 func (x *Exec) ifaceNil(p *IfaceV) *Term {
+	if p.AltC != nil {
+		return x.b.Ite(p.AltC, x.ifaceNil(p.AltA), x.ifaceNil(p.AltB))
+	}
 	if p.Nil != nil {
 		return p.Nil
 	}
@@ -565,6 +668,9 @@ func leavesOf(v Value, t types.Type, prefix string, f func(name string, path []P
 
 // ifaceId: the identity of an opaque interface value as a term.
 func (x *Exec) ifaceId(p *IfaceV) *Term {
+	if p.AltC != nil {
+		return x.b.Ite(p.AltC, x.ifaceId(p.AltA), x.ifaceId(p.AltB))
+	}
 	if p.IdT != nil {
 		return p.IdT
 	}
